@@ -2,7 +2,7 @@ SPECIFICATION Spec
 CONSTANTS
   MaxConn = 5
   MaxSubs = 4
-  DecideAtStart = FALSE OnlyClear = FALSE
+  DecideAtStart = FALSE OnlyClear = TRUE
 INVARIANT ExactlyTheOwedReports
 INVARIANT FlagFollowsGhost
 CHECK_DEADLOCK FALSE
